@@ -83,6 +83,9 @@ func C20(env *Env) {
 		r.Fail("C20/FIRST", "success-return", where, "no success return")
 	}
 	for _, a := range alts {
+		if c, ok := a.Ret.Results[len(a.Ret.Results)-1].(*ssa.Call); ok && c.Call.IsInvoke() && c.Call.Method.Name() == "Err" && dominatedByDoneCase(a.Ret, c.Call.Value) {
+			continue // returns ctx.Err() after ctx.Done() fired: non-nil by the context contract
+		}
 		okGate := hasGate(a, func(t *flow.Term) bool {
 			return pat.Bin("==", pat.Res("2", pat.Is(wt)), pat.Const("nil"))(t, pat.Bind{})
 		}, false) != nil
@@ -363,4 +366,39 @@ func contains(s, sub string) bool {
 		}
 	}
 	return false
+}
+
+// dominatedByDoneCase: ret is only reachable through the select case that
+// received from ctx.Done() of the given context value.
+func dominatedByDoneCase(ret *ssa.Return, ctxv ssa.Value) bool {
+	b := ret.Block()
+	if len(b.Preds) != 1 {
+		return false
+	}
+	iff, ok := b.Preds[0].Instrs[len(b.Preds[0].Instrs)-1].(*ssa.If)
+	if !ok || b.Preds[0].Succs[0] != b {
+		return false
+	}
+	bo, ok := iff.Cond.(*ssa.BinOp)
+	if !ok || bo.Op != token.EQL {
+		return false
+	}
+	ex, ok := bo.X.(*ssa.Extract)
+	if !ok || ex.Index != 0 {
+		return false
+	}
+	sel, ok := ex.Tuple.(*ssa.Select)
+	if !ok {
+		return false
+	}
+	c, ok := bo.Y.(*ssa.Const)
+	if !ok || c.Value == nil {
+		return false
+	}
+	idx, _ := constant.Int64Val(c.Value)
+	if int(idx) >= len(sel.States) {
+		return false
+	}
+	dc, ok := sel.States[idx].Chan.(*ssa.Call)
+	return ok && dc.Call.IsInvoke() && dc.Call.Method.Name() == "Done" && dc.Call.Value == ctxv
 }
